@@ -107,6 +107,10 @@ def run(ck: Check):
         sc.setdefault("_cond", "corpus")
         scs.append(sc)
     scs += [gen_consumer(rng, i) for i in range(n)]
+    rng_old = random.Random(ck.seed * 7121 + 1919)
+    for i in range(ck.n(18, 200)):
+        sc = conssim.old_broker(gen_consumer(rng_old, 700000 + i), rng_old)
+        scs.append(sc)
     results = conssim.run_scenarios(scs, timeout=ck.n(900, 3000))
     bound = 4 * T_REQ + 1.5
     hist = {"cond": {}, "hang": 0, "failed_runs": 0, "leave_sent": 0}
